@@ -2148,6 +2148,8 @@ def compare_model(corpus, line, impl_text, model_text):
 # these when the runner learns more); decq / mergeq are sent to the model as dec / merge
 MODEL_SUPPORTS = dict(wrappers=True, declen=True, lendelim=True)
 MODEL_EDV_ARGS = ["--edv"]        # extra runner arguments for the pb-encode-default-value build
+MODEL_MAX_HEX, MODEL_HARD_MAX_HEX, MODEL_LONG_EVERY = 6000, 40000, 6
+MODEL_STATS = dict(lines=0, skipped_long=0)
 
 
 def model_line(corpus, line):
@@ -2183,11 +2185,23 @@ def run_model(corpus, model_runner, cases, outputs):
     for feat, per in outputs.items():
         args = ["--schema", schema] + (MODEL_EDV_ARGS if feat == "edv" else [])
         flat, idx = [], []
+        nlong = 0
         for ci in sorted(per):
             for l, o in per[ci]:
                 ml = model_line(corpus, l)
-                if ml is not None:
-                    flat.append(ml); idx.append((l, o))
+                if ml is None:
+                    continue
+                # the extracted model works on unary naturals and byte lists: its cost is quadratic in the input
+                # length (10 s for 60 KB).  Inputs beyond MODEL_MAX_HEX hex digits go to the model only every
+                # MODEL_LONG_EVERY-th time (deterministic), never beyond MODEL_HARD_MAX_HEX; the implementation and
+                # the reference oracles see all of them.
+                if len(ml) > MODEL_MAX_HEX:
+                    nlong += 1
+                    if len(ml) > MODEL_HARD_MAX_HEX or nlong % MODEL_LONG_EVERY:
+                        MODEL_STATS["skipped_long"] += 1
+                        continue
+                flat.append(ml); idx.append((l, o))
+        MODEL_STATS["lines"] += len(flat)
         mouts = core.run_lines(model_runner, flat, args=args)
         for (l, o), mo in zip(idx, mouts):
             d = compare_model(corpus, l, o, mo or "")
@@ -2245,6 +2259,8 @@ def _finish(chk, corpus, gen_bins, model_runner, cases, nontrivial, reenc, dist,
     dist["driver_lines"] = sum(len(c.split("\n")) for c in cases)
     dist["builds"] = sorted(gen_bins)
     dist["outcomes"] = statuses
+    dist["model_lines_compared"] = MODEL_STATS["lines"]
+    dist["model_lines_skipped_long_input"] = MODEL_STATS["skipped_long"]
     chk.cov.setdefault("distribution", {}).update(dist)
     chk.cov["disagreements_checked"] = chk.cov.get("disagreements_checked", 0) + dist["driver_lines"] * len(gen_bins)
     return failing, mism, len(cases)
